@@ -201,7 +201,7 @@ def _dec(v):
 def model_outcome(answer):
     if answer.startswith('ok '):
         v = json.loads(answer[3:])
-        return ('ok', _dec(v['doc']), v['rt'], v['writable'])
+        return ('ok', _dec(v['doc']), v['rt'], v['writable'], v['reread'])
     if answer.startswith('err '):
         return ('err', answer.split()[1], None)
     if answer.startswith('unsup '):
@@ -479,7 +479,7 @@ def first_difference(a, b, path='doc'):
     return None if a == b else '%s: model %r, text %r' % (path, a, b)
 
 
-def check(run, source, netlist, opts, real_items, text, describe):
+def check(run, source, netlist, opts, real_items, text, describe, reread=None):
     """run: the Run of verilog_check (stats, handle_items, emit counters)"""
     st = run.emit
     try:
@@ -520,6 +520,23 @@ def check(run, source, netlist, opts, real_items, text, describe):
             st['outcomes']['document'] += 1
             st['modules_compared'] += len(model[1])
             st['rt_check true' if model[2] else 'rt_check false'] += 1
+            # the written document through the reader model vs the written text through the real reader
+            import verilog_doc as D
+            back = model[4]
+            m_out = D.model_canon('ok ' + json.dumps(back['ok'])) if 'ok' in back else D.model_canon('err ' + back['err'])
+            if m_out[0] == 'unsupported':
+                st['reread_outside_reader_model'][m_out[1]] += 1
+            elif not d:
+                r_out = None
+                if reread is not None:
+                    r_out = D.real_outcome(text, netlist=reread)
+                elif real_items and real_items[0]['kind'] == 'reparse-rejected':
+                    r_out = D.real_outcome(text)
+                if r_out is not None:
+                    st['reread_compared'] += 1
+                    dd = D.compare(m_out, r_out)
+                    if dd:
+                        problems.append('elab (emit n) differs from parse (compose n): %s' % dd[0])
             if model[3]:
                 st['writable'] += 1
                 if not model[2]:
